@@ -347,6 +347,35 @@ static void runBytes(const Opt &o, Ev &ev) {
     ev.exhaustive[fmt("every byte value 0..255 at every position of every string up to length %d over each recogniser's class alphabet", maxLen)] = true;
 }
 
+// far-out lengths: definite-length blocks whose announced length crosses every power of ten of the header and the 15/16-bit
+// marks, completely present, one byte short, and with leading zeros in the length field; also as a parameter of a unit
+static void runFar(const Opt &o, Ev &ev) {
+    static const size_t lens[] = {9, 10, 99, 100, 999, 1000, 3275, 3276, 3277, 9999, 10000, 32759, 32760, 32767, 32768, 65535, 65536, 99999, 100000, 262144};
+    uint64_t calls = 0, idx = 0;
+    int blockRec = -1, pdRec = -1;
+    for (int i = 0; i < kNRecs; i++) { if (!strcmp(kRecs[i].name, "ArbitraryBlockProgramData")) blockRec = i; if (!strcmp(kRecs[i].name, "parseProgramData")) pdRec = i; }
+    for (size_t n : lens) for (int zeros = 0; zeros < 2; zeros++) for (int shape = 0; shape < 3; shape++) {
+        if ((idx++ % (uint64_t) o.workers) != (uint64_t) o.worker) continue;
+        S l = std::to_string(n); if (zeros && l.size() < 9) l = S(9 - l.size(), '0') + l;
+        S payload(n, 'x'); for (size_t i = 7; i < n; i += 97) payload[i] = "\n;\"#,)"[i % 7];
+        S t = "#" + std::to_string(l.size()) + l + (shape == 1 ? payload.substr(0, n - 1) : payload) + (shape == 2 ? ",7" : "");
+        for (int ri : {blockRec, pdRec}) {
+            g_curRec = ri; g_curStr = t.substr(0, 64);
+            std::string m = checkOne(ri, t);
+            calls++;
+            if (!m.empty()) { failEnum(o, ev, "tok", fmt("rec=%d\nstr=", ri) + hexEnc(t) + "\n", m.substr(0, 400)); if (ev.failures.size() >= 4) return; }
+        }
+        if (shape != 1) {
+            S u = "A " + t + (shape == 2 ? "" : ",7") + "\n";
+            g_curRec = -2; g_curStr = u.substr(0, 64);
+            std::string m = checkUnit(u);
+            calls++;
+            if (!m.empty()) { failEnum(o, ev, "tok", "rec=-2\nstr=" + hexEnc(u) + "\n", m.substr(0, 400)); if (ev.failures.size() >= 4) return; }
+        }
+    }
+    ev.eval(calls); ev.ntCount(calls); ev.label("far-out-block-lengths", calls);
+}
+
 // long grammar-generated tokens
 static std::string body(Src &s, Ev &ev) {
     int kind = (int) s.range(0, 5);
@@ -375,6 +404,7 @@ int main(int argc, char **argv) {
     subs.push_back({"tok", [](const Opt &, Ev &) {}, replayTok});
     subs.push_back({"enum", runEnum, replayTok});
     subs.push_back({"bytes", runBytes, replayTok});
+    subs.push_back({"far", runFar, replayTok});
     subs.push_back({"rand", [](const Opt &o, Ev &ev) { runRandom(o, ev, "rand", 900, o.quick() ? 20000 : 200000, body); },
                     [](const Replay &r) { auto v = r.choices(); Src s(v); Ev e; return body(s, e); }});
     return mainWith(argc, argv, "C13", subs);
